@@ -354,7 +354,10 @@ func (e *Engine) store(st *state, fr *frame, addr, v *Val, instr ssa.Instruction
 	st.mem[addr.Key()] = memEntry{Addr: addr, V: v}
 	root := addrRoot(addr)
 	if root == nil || root.Op != "alloc" {
-		e.addEvent(st, fr, &Event{Kind: EvStore, Dst: addr, Src: v}, instr)
+		ev := e.addEvent(st, fr, &Event{Kind: EvStore, Dst: addr, Src: v}, instr)
+		if c := e.contentOf(st, v); c != v {
+			ev.Args = []*Val{c} // what the stored slice holds at this point
+		}
 	}
 }
 
